@@ -438,6 +438,20 @@ def run_files(fields):
         shutil.rmtree(root, ignore_errors=True)
 
 
+def run_gas(fields):
+    """["gas"; salt; numeral]: the real _generate_as_number_replacement"""
+    from netconan.sensitive_item_removal import AsNumberAnonymizer
+
+    try:
+        a = AsNumberAnonymizer([], fields[1])
+        r = a._generate_as_number_replacement(fields[2])
+        return "None" if r is None else r
+    except ValueError:
+        return "ValueError"
+    except Exception as e:  # noqa
+        return "ERR:" + type(e).__name__
+
+
 def run_iphist(fields):
     """["iphist"; fam; B; salt; pfx; nets; step...]: ONE anonymizer object answers a sequence of text-level requests through
     anonymize_ip_addr; step = "a<line>" (anonymize) or "u<line>" (undo).  Output: the answers joined by \x03."""
@@ -481,7 +495,7 @@ def run_seq(fields):
     return "\x07".join(outs)
 
 
-DISPATCH = {"iphist": run_iphist, "seq": run_seq, "gjenc": run_jun, "gjdec": run_jun, "gbase": run_ip, "gip4": run_ip, "main": run_main, "files": run_files, "asr": run_asr, "pipe": run_pipe, "base": run_ip, "ip4": run_ip, "ip6": run_ip, "jenc": run_jun, "jdec": run_jun}
+DISPATCH = {"gas": run_gas, "iphist": run_iphist, "seq": run_seq, "gjenc": run_jun, "gjdec": run_jun, "gbase": run_ip, "gip4": run_ip, "main": run_main, "files": run_files, "asr": run_asr, "pipe": run_pipe, "base": run_ip, "ip4": run_ip, "ip6": run_ip, "jenc": run_jun, "jdec": run_jun}
 
 
 def main():
